@@ -2,6 +2,7 @@ package sfh
 
 import (
 	"fmt"
+	"math/big"
 	"strings"
 )
 
@@ -87,6 +88,50 @@ func init() {
 		RegisterGen("C07", onlyOp("enc", g))
 		RegisterGen("C01", onlyOp("rt", g))
 	}
+	for _, f := range ModelledFormats {
+		RegisterGen("C10", genExtMixed(f, true))
+		RegisterGen("C07", genExtMixed(f, false))
+	}
 	RegisterGen("C10", genUnfExt)
 	RegisterGen("C13", genUnfExt)
+}
+
+// genExtMixed: typed integer arrays whose elements mix the boundary values of the narrower wire
+// widths (an encoder choosing one element type for the whole array must choose one that holds
+// every element: -1 next to 200, 255 next to -129, 65535 next to -1, …).
+func genExtMixed(f string, asExt bool) GenFn {
+	return func(r *Rand, tier string, emit func(string)) {
+		bs := []string{"-9223372036854775808", "-4294967297", "-2147483649", "-2147483648", "-65537", "-32769", "-32768", "-129", "-128", "-1",
+			"0", "127", "128", "255", "256", "32767", "32768", "65535", "65536", "2147483647", "2147483648", "4294967295", "4294967296",
+			"9223372036854775807", "9223372036854775808", "18446744073709551615"}
+		for _, k := range []string{"i8", "i16", "i32", "i64", "i", "b", "u8", "u16", "u32", "u64", "u"} {
+			nk := KindByName(k)
+			var fit []string
+			for _, b := range bs {
+				v, _ := new(big.Int).SetString(b, 10)
+				if nk.Fits(v) {
+					fit = append(fit, b)
+				}
+			}
+			for _, a := range fit {
+				for _, b := range fit {
+					x := fmt.Sprintf("A%s:2:%s/%s", k, a, b)
+					if r.Intn(4) == 0 {
+						x = fmt.Sprintf("A%s:3:%s/%s/%s", k, a, b, Pick(r, fit))
+					}
+					pre, suf := "-", "-"
+					if r.Intn(3) == 0 {
+						pre, suf = "{-1:0,K:61", "K:62,T,}"
+					}
+					if asExt {
+						emit(fmt.Sprintf("ext %s %s %s %s %s", f, optsFor(r, f), pre, x, suf))
+					} else if pre == "-" {
+						emit(fmt.Sprintf("enc %s %s -1 %s", f, optsFor(r, f), x))
+					} else {
+						emit(fmt.Sprintf("enc %s %s -1 %s,%s,%s", f, optsFor(r, f), pre, x, suf))
+					}
+				}
+			}
+		}
+	}
 }
